@@ -162,8 +162,16 @@ fn check_list(members: &[&Single], hays: &[String], docs: &[MObj], optimise_too:
     let yaml = rule_list(&pats);
     let rule = match eng::load(&yaml) {
         Ok(r) => r,
-        Err(_) => {
+        Err(e) => {
+            // every member loads on its own (it comes from the table of single patterns), so a list
+            // of them that does not load can never "match when one member matches alone"
             st.count("lists_rejected_by_loader", 1);
+            st.states += 1;
+            st.push_violation(Violation {
+                signature: "list-of-loadable-members-does-not-load".into(),
+                witness: format!("f: {:?} is rejected ({:?}) although each member loads alone", pats, e),
+                replay: json!({"kind":"load","rule_yaml":yaml}),
+            });
             return st;
         }
     };
@@ -309,6 +317,18 @@ pub fn run(tier: Tier) -> i32 {
             }
         }
     }
+    // lists with a repeated member (a de-duplication or pruning step must keep one copy)
+    let mut dups = 0u64;
+    for a in pair_set.iter().step_by(if th { 1 } else { 3 }) {
+        for b in sub.iter().take(12) {
+            jobs.push(vec![*a, *a, *b]);
+            jobs.push(vec![*b, *a, *a]);
+            dups += 2;
+        }
+        jobs.push(vec![*a, *a, *a]);
+        dups += 1;
+    }
+    rep.stats.count("lists_with_repeated_members", dups);
     rep.stats.count("triples", triples);
     rep.stats.count("quads", quads);
     // repeated and reversed member orders for a few
@@ -370,7 +390,7 @@ pub fn run(tier: Tier) -> i32 {
     }
     rep.stats.sample(json!({"pattern":"i*ab*","haystack":"bAB","reference":true}));
     rep.stats.sample(json!({"list":["a*","*ba","i*B*","?b$"],"haystack":"aab","reference":"OR of the members"}));
-    rep.rule = "patterns: every needle over the alphabet up to the length bound in every relation (exact, x*, *x, *x*, quoted literal, each with and without the i prefix) plus a 30-regex set (each with/without i); haystacks: every string over the alphabet up to the length bound; singles: full product against the naive relation on &str (ASCII case folding); lists: all pairs of the short patterns, all triples and quads of a 28-pattern mixed subset, evaluated as loaded and after default optimisation, against the OR of the members' reference results and the OR of the engine's own single-member verdicts. non-trivial = pattern/list has a matching and a non-matching haystack".into();
+    rep.rule = "patterns: every needle over the alphabet up to the length bound in every relation (exact, x*, *x, *x*, quoted literal, each with and without the i prefix) plus a 30-regex set (each with/without i); haystacks: every string over the alphabet up to the length bound; singles: full product against the naive relation on &str (ASCII case folding); lists: all pairs of the short patterns (incl. a pattern with itself), lists with a member repeated next to a third one, all triples and quads of a 28-pattern mixed subset, evaluated as loaded and after default optimisation, against the OR of the members' reference results and the OR of the engine's own single-member verdicts. non-trivial = pattern/list has a matching and a non-matching haystack".into();
     rep.assumptions = vec![
         "regexes outside the small backtracking matcher's subset fall back to the regex crate as oracle".into(),
     ];
